@@ -150,6 +150,9 @@ int main(int argc, char **argv) {
                 // the same density members placed at 3/4 of the key domain (64-bit keys there are not exactly representable as double)
                 for (int top : {1, 2})   // 2: negative keys (signed key types only; other types have no such member)
                 for (long w : (thorough ? std::vector<long>{0, 27, 57, 114, 201, 228, 255} : std::vector<long>{27, 114, 228})) { Task t; t.cfg = c; t.kind = 3; t.word_lo = w; t.word_hi = w + 1; t.rep = 300; t.n = 4; t.p = 1; t.first = top; tasks.push_back(t); }
+                // stretch family: tens of thousands of short segments and one segment covering four million positions
+                if (e.eps <= 2 && (!strcmp(e.klass, "compressed") || !strcmp(e.klass, "eliasfano") || (!strcmp(e.klass, "pgm") && e.eps_rec <= 1)))
+                    for (auto al : (thorough ? std::vector<std::pair<long, long>>{{74000, 3680000}, {45000, 4200000}, {60000, 3000000}, {74000, 3400000}} : std::vector<std::pair<long, long>>{{74000, 3680000}})) { Task t; t.cfg = c; t.kind = 9; t.rep = al.first; t.n = al.second; t.word_lo = 6000; tasks.push_back(t); }   // sizes for which a long select block starts beyond 2^17 bits but spans fewer
                 // segment counts around the block sizes of the succinct structures (4096 ones per select superblock, 65536)
                 if (e.eps <= 2) for (long c0 : (thorough ? std::vector<long>{4090, 8186, 12282, 65530} : std::vector<long>{4090, 8186})) { Task t; t.cfg = c; t.kind = 6; t.word_lo = c0; t.word_hi = c0 + 12; tasks.push_back(t); }
             }
@@ -167,7 +170,7 @@ int main(int argc, char **argv) {
             }
         }
         fam_bounds = thorough ? "; capacity family (clusters of Epsilon^2+1 keys, every cluster count in a window of 75-150 values: the segment array grows during the construction of an upper level); span family (clusters spread over the whole domain of the key type, 18 cluster counts x 9 end offsets, every configuration); seam family n=32768+{0,1,7}, chunks {2,3,4,5,7,16,19,20}, all 4096 window words at every seam (and at the first/last seam alone); blocks family: 1 block x rep {1,50,400}, 2 blocks x rep {1,20}; density family: all 1024 five-digit words x 300 clusters"
-                              : "; capacity family (clusters of Epsilon^2+1 keys, every cluster count in a window of 75-150 values: the segment array grows during the construction of an upper level); span family (clusters spread over the whole domain of the key type, 11 cluster counts x 9 end offsets, every configuration); seam family n=32768, chunks {2,20}, all 4096 window words at every seam; blocks family: 1 block x rep {1,50}, 2 blocks x rep 1; density family (also placed at 3/4 of the key domain and, for signed keys, at 3/4 of the negative half, for three words; single blocks of 4090..4101 and 8186..8197 clusters): all 256 four-digit words of gap multipliers x 300 clusters (several segments per upper level), skewed variants with a 3x/30x jump, and 44000-cluster variants (plain, and 'chunk-tail' with a key-space jump 1/3 clusters before every chunk boundary over a zig-zag background) whose upper levels are built by the chunked builder; long-run family: a duplicate run from around a chunk start to around a chunk end, every start/end offset";
+                              : "; capacity family (clusters of Epsilon^2+1 keys, every cluster count in a window of 75-150 values: the segment array grows during the construction of an upper level); span family (clusters spread over the whole domain of the key type, 11 cluster counts x 9 end offsets, every configuration); seam family n=32768, chunks {2,20}, all 4096 window words at every seam; blocks family: 1 block x rep {1,50}, 2 blocks x rep 1; density family (also placed at 3/4 of the key domain and, for signed keys, at 3/4 of the negative half, for three words; single blocks of 4090..4101 and 8186..8197 clusters; a stretch member: 74,000 clusters, one run of 3,680,000 consecutive keys, 6,000 clusters): all 256 four-digit words of gap multipliers x 300 clusters (several segments per upper level), skewed variants with a 3x/30x jump, and 44000-cluster variants (plain, and 'chunk-tail' with a key-space jump 1/3 clusters before every chunk boundary over a zig-zag background) whose upper levels are built by the chunked builder; long-run family: a duplicate run from around a chunk start to around a chunk end, every start/end offset";
     }
 
     if (asan_quick) std::stable_sort(tasks.begin(), tasks.end(), [](const Task &a, const Task &b) { return (a.kind != 0) > (b.kind != 0); });   // few large-input cases first
@@ -194,6 +197,10 @@ int main(int argc, char **argv) {
                 ks::FamilySpec s; s.kind = "density"; s.chunks = 1; s.rep = c; s.width = 1; s.word = c % 4;
                 e.family(run, cn, prop, s);
             }
+        } else if (t.kind == 9) {
+            ks::FamilySpec s; s.kind = "stretch"; s.chunks = 1; s.rep = t.rep; s.n = t.n; s.width = t.word_lo;
+            run.sample(std::string("cfg=") + e.name + " family=" + s.str());
+            e.family(run, cn, prop, s);
         } else if (t.kind == 8) {
             for (long c = t.word_lo; c < t.word_hi && !run.deadline_passed(); ++c) for (long w : {0L, 5L}) {
                 ks::FamilySpec s; s.kind = "capacity"; s.chunks = 1; s.rep = c; s.n = 0; s.word = w;
